@@ -273,6 +273,15 @@ func (p *prop) runModule(c core.Case, w *core.Worker, res *core.Result, r *rand.
 		// every third run in a fresh process, the others in this (long-lived) worker process
 		o := run(entries, all, nchecks%3 == 0)
 		variant := fmt.Sprintf("entrypoints %v all=%v", entries, all)
+		if dd := os.Getenv("VERIF_DUMP"); dd != "" && idx == 0 {
+			for d, fs := range o.files {
+				for fn, body := range fs {
+					_ = os.MkdirAll(filepath.Join(dd, fmt.Sprint(nchecks), d), 0o755)
+					_ = os.WriteFile(filepath.Join(dd, fmt.Sprint(nchecks), d, fn), []byte(body), 0o644)
+				}
+			}
+			_ = os.WriteFile(filepath.Join(dd, fmt.Sprint(nchecks), "variant"), []byte(variant), 0o644)
+		}
 		res.Evals++
 		if len(expectPkgs) >= 2 {
 			res.NonTrivial(fmt.Sprintf("%d|%d|%s", c.Seed, idx, variant))
